@@ -319,12 +319,35 @@ func checkC01(c *Ctx) {
 		}
 		ru2.Check(bad == "", "topic used for recipient resolution in "+c.fname(w.run), c.whereI(w.logGet.Instr), "ByPattern(entry.Topic)", bad)
 		fan := false
-		for _, cl := range core.CallsIn(w.logFn) {
-			if cl.Static == nil || bp == nil || !core.Dominates(bp.Instr, cl.Instr) {
+		fanCalls := core.CallsIn(w.logFn)
+		viaJob := false
+		if w.logFn != w.run {
+			// the helper may complete the job it was handed and leave the fan-out to the loop
+			for _, cl := range core.CallsIn(w.run) {
+				if reachesInstr(w.logSite, cl.Instr) {
+					fanCalls = append(fanCalls, cl)
+				}
+			}
+			viaJob = true
+		}
+		for _, cl := range fanCalls {
+			if cl.Static == nil || bp == nil || (cl.Instr.Parent() == w.logFn && !core.Dominates(bp.Instr, cl.Instr)) {
 				continue
 			}
 			gotEntry, gotRecipients := false, false
-			for _, a := range cl.Common.Args {
+			args := cl.Common.Args
+			if viaJob && cl.Instr.Parent() == w.run {
+				// arguments read from the job: what the helper stored there
+				args = nil
+				for _, a := range cl.Common.Args {
+					if svs := w.jobFieldStores(a); len(svs) == 1 {
+						args = append(args, svs[0])
+					} else {
+						args = append(args, a)
+					}
+				}
+			}
+			for _, a := range args {
 				if ex, ok := core.Strip(a).(*ssa.Extract); ok && ex.Tuple == w.logGet.Value() && ex.Index == 0 {
 					gotEntry = true
 				}
@@ -336,7 +359,7 @@ func checkC01(c *Ctx) {
 							for _, b := range w.logFn.Blocks {
 								for _, in := range b.Instrs {
 									if st, ok := in.(*ssa.Store); ok {
-										if ia, ok := st.Addr.(*ssa.IndexAddr); ok && core.Strip(ia.X) == ssa.Value(ms) && depReaches(st.Val, func(v ssa.Value) bool { return v == bp.Value() }) {
+										if ia, ok := st.Addr.(*ssa.IndexAddr); ok && (core.Strip(ia.X) == ssa.Value(ms) || w.jobFieldHolds(ia.X, ms)) && depReaches(st.Val, func(v ssa.Value) bool { return v == bp.Value() }) {
 											gotRecipients = true
 										}
 									}
